@@ -6,6 +6,7 @@ package storage
 
 import (
 	"bytes"
+	"context"
 
 	"google.golang.org/grpc"
 	"sort"
@@ -19,6 +20,7 @@ import (
 	uuid "github.com/satori/go.uuid"
 )
 
+var _ context.Context
 var _ *cluster.Conn
 var _ *grpc.ClientConn
 var _ bytes.Buffer
@@ -499,17 +501,22 @@ var _ uuid.UUID
 //@ spec wfPartition(d *Dataset, p *partition) bool = p != nil && p.index != nil && p.meta != nil && p.dataset == d && p.notificator != nil && p.notificator.chans != nil && searchable(p)
 //@ spec wfDatasetFull(d *Dataset) bool = wfDataset(d) && d.meta.PartitionCount >= 1 && len(d.partitions) == d.meta.PartitionCount && (forall i int :: 0 <= i && i < len(d.partitions) ==> wfPartition(d, d.partitions[i])) && (forall id uuid.UUID :: has(d.partitionsMap, id) ==> wfPartition(d, d.partitionsMap[id]))
 
+// contexts: Done() hands out the context's own channel (a function of the context); Err() of a context is non-nil once THAT
+// context's Done channel has delivered - each function that returns ctx.Err() after a receive on ctx.Done() records which
+// channel delivered (ghost doneCh) and learns "non-nil" only for the context that channel belongs to (asking another context,
+// e.g. the caller's instead of the derived timeout context, yields an arbitrary answer - possibly nil)
+//@ ufunc doneChanOf(context.Context) <-chan struct{}
 //@ func iface:context.Context.Done
-//@ props C17 C09 C11 C03 C05 C14
+//@ props C17 C09 C11 C03 C05 C14 C12 C16
 //@ assume
 //@ pure
+//@ ensures [its-own-channel] ret == doneChanOf(recv)
 //@ modifies nothing
 
 //@ func iface:context.Context.Err
-//@ props C17 C09 C11 C03 C05 C14
+//@ props C17 C09 C11 C03 C05 C14 C12 C16
 //@ assume
 //@ pure
-//@ ensures [after-done] !isnil(ret)
 //@ modifies nothing
 
 // C20 / C11: a client for a node is built on the connection cluster.Conn holds for the node at that moment (never kept over a
@@ -610,6 +617,14 @@ var _ uuid.UUID
 //@ func (*storage.Dataset).SizeInfo
 //@ props C17
 //@ safety C12
+//@ ghost doneCh <-chan struct{} = nil
+//@ at recv call:context.Context.Done
+//@ assume [a receive that completed was not on a nil channel] $chan != nil
+//@ set doneCh = $chan
+//@ end
+//@ at call Context.Err
+//@ assume [a context reports an error once its own Done channel has delivered] doneCh != nil && doneChanOf($arg0) == doneCh ==> !isnil($ret0)
+//@ end
 //@ ghost handled int = 0
 //@ ghost gotErr int = 0
 //@ at send local:errorCh
@@ -757,6 +772,14 @@ var _ uuid.UUID
 //@ props C09 C01
 //@ safety C12
 //@ allocbound C12
+//@ ghost doneCh <-chan struct{} = nil
+//@ at recv call:context.Context.Done
+//@ assume [a receive that completed was not on a nil channel] $chan != nil
+//@ set doneCh = $chan
+//@ end
+//@ at call Context.Err
+//@ assume [a context reports an error once its own Done channel has delivered] doneCh != nil && doneChanOf($arg0) == doneCh ==> !isnil($ret0)
+//@ end
 //@ ghost spawned int = 0
 //@ ghost real int = 0
 //@ at go searchPartitionsOnNode
@@ -819,6 +842,14 @@ var _ uuid.UUID
 //@ props C09 C01
 //@ safety C12
 //@ allocbound C12
+//@ ghost doneCh <-chan struct{} = nil
+//@ at recv call:context.Context.Done
+//@ assume [a receive that completed was not on a nil channel] $chan != nil
+//@ set doneCh = $chan
+//@ end
+//@ at call Context.Err
+//@ assume [a context reports an error once its own Done channel has delivered] doneCh != nil && doneChanOf($arg0) == doneCh ==> !isnil($ret0)
+//@ end
 //@ ghost spawned int = 0
 //@ ghost real int = 0
 //@ at go searchPartition
@@ -888,6 +919,14 @@ var _ uuid.UUID
 //@ func (*storage.partition).proposeAndWaitForCommit
 //@ props C11 C12
 //@ safety C12
+//@ ghost doneCh <-chan struct{} = nil
+//@ at recv call:context.Context.Done
+//@ assume [a receive that completed was not on a nil channel] $chan != nil
+//@ set doneCh = $chan
+//@ end
+//@ at call Context.Err
+//@ assume [a context reports an error once its own Done channel has delivered] doneCh != nil && doneChanOf($arg0) == doneCh ==> !isnil($ret0)
+//@ end
 //@ ghost proposed int = 0
 //@ ghost notified int = 0
 //@ at call RaftGroup).Propose
@@ -1061,6 +1100,14 @@ var _ uuid.UUID
 // C11 (batch fan-in): one worker per partition group; success only after exactly as many messages as workers were consumed
 //@ func (*storage.Dataset).partitionsBatchRequest
 //@ props C12 C11
+//@ ghost doneCh <-chan struct{} = nil
+//@ at recv call:context.Context.Done
+//@ assume [a receive that completed was not on a nil channel] $chan != nil
+//@ set doneCh = $chan
+//@ end
+//@ at call Context.Err
+//@ assume [a context reports an error once its own Done channel has delivered] doneCh != nil && doneChanOf($arg0) == doneCh ==> !isnil($ret0)
+//@ end
 //@ ghost spawned int = 0
 //@ ghost real int = 0
 //@ at go handlePartitionBatchRequest
@@ -1264,6 +1311,14 @@ var _ uuid.UUID
 //@ func (*storage.DatasetManager).Create
 //@ props C12 C16 C14
 //@ safety C12
+//@ ghost doneCh <-chan struct{} = nil
+//@ at recv call:context.Context.Done
+//@ assume [a receive that completed was not on a nil channel] $chan != nil
+//@ set doneCh = $chan
+//@ end
+//@ at call Context.Err
+//@ assume [a context reports an error once its own Done channel has delivered] doneCh != nil && doneChanOf($arg0) == doneCh ==> !isnil($ret0)
+//@ end
 //@ ghost proposedRecords int = 0
 // C16 / C14: the placement that is proposed is the one computed by this call, for the requested shape, from the membership as it
 // is read by this call, and it is handed to raft by this call itself, once, with nothing in between that waits (a placement
@@ -1302,6 +1357,14 @@ var _ uuid.UUID
 
 //@ func (*storage.DatasetManager).Delete
 //@ props C12
+//@ ghost doneCh <-chan struct{} = nil
+//@ at recv call:context.Context.Done
+//@ assume [a receive that completed was not on a nil channel] $chan != nil
+//@ set doneCh = $chan
+//@ end
+//@ at call Context.Err
+//@ assume [a context reports an error once its own Done channel has delivered] doneCh != nil && doneChanOf($arg0) == doneCh ==> !isnil($ret0)
+//@ end
 //@ at recv local:notifC
 //@ assume [protocol: the value notified for a catalogue change is nil or an error; the channel is closed only by this call's own deferred Remove] $ok && (isnil($recv) || implements($recv, error))
 //@ end
